@@ -167,4 +167,180 @@ theorem restoreFileTasks_eq (o : Opts) (old : Option Bytes) (mtimeEq : Bool) (bl
           rw [← hk, ht]; rfl
         | cons t rest => simp only [runTasks, Option.getD_some, hF]; rw [← ht, hk]
 
+/-! ### any order of the writer tasks -/
+
+/-- `writeAt` on a file split as `A ++ X ++ R` with `|A| = pos`, `|X| = |d|` -/
+theorem writeAt_split (A X R d : Bytes) (h : X.length = d.length) :
+    writeAt (A ++ X ++ R) A.length d = A ++ d ++ R := by
+  unfold writeAt
+  have h1 : (A ++ X ++ R).take A.length = A := by
+    rw [List.append_assoc]; exact List.take_left' rfl
+  have h2 : (A ++ X ++ R).drop (A.length + d.length) = R := by
+    apply List.drop_left'
+    simp [h]
+  rw [h1, h2]
+
+/-- two writes to disjoint ranges of a file that holds both ranges commute -/
+theorem writeAt_comm (z : Bytes) (p1 p2 : Nat) (d1 d2 : Bytes) (h12 : p1 + d1.length ≤ p2)
+    (hz : p2 + d2.length ≤ z.length) :
+    writeAt (writeAt z p1 d1) p2 d2 = writeAt (writeAt z p2 d2) p1 d1 := by
+  -- z = A ++ X ++ B ++ Y ++ C
+  let A := z.take p1
+  let X := (z.drop p1).take d1.length
+  let B := (z.drop (p1 + d1.length)).take (p2 - (p1 + d1.length))
+  let Y := (z.drop p2).take d2.length
+  let C := z.drop (p2 + d2.length)
+  have hA : A.length = p1 := by simp only [A, List.length_take]; omega
+  have hX : X.length = d1.length := by simp only [X, List.length_take, List.length_drop]; omega
+  have hB : B.length = p2 - (p1 + d1.length) := by simp only [B, List.length_take, List.length_drop]; omega
+  have hY : Y.length = d2.length := by simp only [Y, List.length_take, List.length_drop]; omega
+  have hz' : z = A ++ X ++ B ++ Y ++ C := by
+    have e1 : z = A ++ z.drop p1 := (List.take_append_drop p1 z).symm
+    have e2 : z.drop p1 = X ++ z.drop (p1 + d1.length) := by
+      have := (List.take_append_drop d1.length (z.drop p1)).symm
+      rw [List.drop_drop] at this; exact this
+    have e3 : z.drop (p1 + d1.length) = B ++ z.drop p2 := by
+      have := (List.take_append_drop (p2 - (p1 + d1.length)) (z.drop (p1 + d1.length))).symm
+      rw [List.drop_drop] at this
+      have hp : p1 + d1.length + (p2 - (p1 + d1.length)) = p2 := by omega
+      rw [hp] at this; exact this
+    have e4 : z.drop p2 = Y ++ C := by
+      have := (List.take_append_drop d2.length (z.drop p2)).symm
+      rw [List.drop_drop] at this; exact this
+    calc z = A ++ z.drop p1 := e1
+      _ = A ++ (X ++ (B ++ (Y ++ C))) := by rw [e2, e3, e4]
+      _ = A ++ X ++ B ++ Y ++ C := by simp [List.append_assoc]
+  have hp2 : (A ++ d1 ++ B).length = p2 := by simp only [List.length_append, hA, hB]; omega
+  have hp2' : (A ++ X ++ B).length = p2 := by simp only [List.length_append, hA, hX, hB]; omega
+  rw [hz']
+  -- first order
+  have s1 : writeAt (A ++ X ++ B ++ Y ++ C) p1 d1 = A ++ d1 ++ (B ++ Y ++ C) := by
+    have : A ++ X ++ B ++ Y ++ C = A ++ X ++ (B ++ Y ++ C) := by simp [List.append_assoc]
+    rw [this, ← hA]; exact writeAt_split A X _ d1 hX
+  have s2 : writeAt (A ++ d1 ++ (B ++ Y ++ C)) p2 d2 = A ++ d1 ++ B ++ d2 ++ C := by
+    have : A ++ d1 ++ (B ++ Y ++ C) = (A ++ d1 ++ B) ++ Y ++ C := by simp [List.append_assoc]
+    rw [this, ← hp2]; exact writeAt_split (A ++ d1 ++ B) Y C d2 hY
+  -- second order
+  have t1 : writeAt (A ++ X ++ B ++ Y ++ C) p2 d2 = A ++ X ++ B ++ d2 ++ C := by
+    rw [← hp2']; exact writeAt_split (A ++ X ++ B) Y C d2 hY
+  have t2 : writeAt (A ++ X ++ B ++ d2 ++ C) p1 d1 = A ++ d1 ++ (B ++ d2 ++ C) := by
+    have : A ++ X ++ B ++ d2 ++ C = A ++ X ++ (B ++ d2 ++ C) := by simp [List.append_assoc]
+    rw [this, ← hA]; exact writeAt_split A X _ d1 hX
+  rw [s1, s2, t1, t2]
+  simp [List.append_assoc]
+
+theorem runTask_length {f : Bytes} {t : Task} (h : t.pos + t.data.length ≤ f.length) : (runTask f t).length = f.length := by
+  unfold runTask
+  split
+  · rfl
+  · exact writeAt_length h
+
+theorem runTask_comm (z : Bytes) (x y : Task) (hxy : x.pos + x.data.length ≤ y.pos) (hz : y.pos + y.data.length ≤ z.length) :
+    runTask (runTask z x) y = runTask (runTask z y) x := by
+  unfold runTask
+  cases hx : x.hole <;> cases hy : y.hole <;> simp
+  exact writeAt_comm z x.pos y.pos x.data y.data hxy hz
+
+theorem tasks_bounds (o : Opts) (fresh : Bool) (m : Option Bytes) (blobs : List Bytes) (pos : Nat) :
+    ∀ t ∈ tasks o fresh m pos blobs, pos ≤ t.pos ∧ t.pos + t.data.length ≤ pos + blobs.flatten.length := by
+  induction blobs generalizing pos with
+  | nil => intro t ht; cases ht
+  | cons b rest ih =>
+    intro t ht
+    simp only [tasks, List.mem_append] at ht
+    simp only [List.flatten_cons, List.length_append]
+    rcases ht with ht | ht
+    · split at ht
+      · simp only [List.mem_singleton] at ht; subst ht; simp
+      · cases ht
+    · have := ih (pos + b.length) t ht
+      omega
+
+/-- the tasks of one file write to consecutive, pairwise disjoint ranges -/
+theorem tasks_pairwise (o : Opts) (fresh : Bool) (m : Option Bytes) (blobs : List Bytes) (pos : Nat) :
+    (tasks o fresh m pos blobs).Pairwise (fun x y => x.pos + x.data.length ≤ y.pos) := by
+  induction blobs generalizing pos with
+  | nil => exact List.Pairwise.nil
+  | cons b rest ih =>
+    simp only [tasks]
+    rw [List.pairwise_append]
+    refine ⟨?_, ih (pos + b.length), ?_⟩
+    · split
+      · exact List.pairwise_singleton _ _
+      · exact List.Pairwise.nil
+    · intro x hx y hy
+      have hy' := (tasks_bounds o fresh m rest (pos + b.length) y hy).1
+      split at hx
+      · simp only [List.mem_singleton] at hx; subst hx; exact hy'
+      · cases hx
+
+theorem pairwise_cases {α : Type} {R : α → α → Prop} {l : List α} (h : l.Pairwise R) :
+    ∀ x ∈ l, ∀ y ∈ l, x = y ∨ R x y ∨ R y x := by
+  induction l with
+  | nil => intro x hx; cases hx
+  | cons a rest ih =>
+    intro x hx y hy
+    have ha : ∀ e ∈ rest, R a e := fun e he => List.rel_of_pairwise_cons h he
+    rcases List.mem_cons.1 hx with hx1 | hx1
+    · rcases List.mem_cons.1 hy with hy1 | hy1
+      · exact Or.inl (hx1.trans hy1.symm)
+      · exact Or.inr (Or.inl (hx1 ▸ ha y hy1))
+    · rcases List.mem_cons.1 hy with hy1 | hy1
+      · exact Or.inr (Or.inr (hy1 ▸ ha x hx1))
+      · exact ih (List.Pairwise.of_cons h) x hx1 y hy1
+
+/-- a fold over steps that commute pairwise (on the states satisfying an invariant the steps keep) does not depend on the order -/
+theorem foldl_perm_comm {α β : Type} (f : β → α → β) (P : β → Prop) {l₁ l₂ : List α} (hp : l₁.Perm l₂)
+    (hP : ∀ z x, x ∈ l₁ → P z → P (f z x))
+    (hc : ∀ x ∈ l₁, ∀ y ∈ l₁, ∀ z, P z → f (f z x) y = f (f z y) x) :
+    ∀ z, P z → l₁.foldl f z = l₂.foldl f z := by
+  induction hp with
+  | nil => intros; rfl
+  | cons a _ ih =>
+    intro z hz
+    simp only [List.foldl_cons]
+    exact ih (fun z x hx => hP z x (List.mem_cons_of_mem _ hx))
+      (fun x hx y hy => hc x (List.mem_cons_of_mem _ hx) y (List.mem_cons_of_mem _ hy)) _ (hP z a List.mem_cons_self hz)
+  | swap a b l =>
+    intro z hz
+    simp only [List.foldl_cons]
+    rw [hc b List.mem_cons_self a (List.mem_cons_of_mem _ List.mem_cons_self) z hz]
+  | trans h1 _ ih1 ih2 =>
+    intro z hz
+    rw [ih1 hP hc z hz]
+    exact ih2 (fun z x hx => hP z x (h1.mem_iff.2 hx)) (fun x hx y hy => hc x (h1.mem_iff.2 hx) y (h1.mem_iff.2 hy)) z hz
+
+/-- **whatever order the writer tasks of a file run in, the file ends the same** (they write to disjoint ranges of the
+allocated file) -/
+theorem tasks_any_order (o : Opts) (fresh : Bool) (m : Option Bytes) (blobs : List Bytes) (F : Bytes)
+    (hF : F.length = blobs.flatten.length) (ts : List Task) (hp : ts.Perm (tasks o fresh m 0 blobs)) :
+    ts.foldl runTask F = (tasks o fresh m 0 blobs).foldl runTask F := by
+  symm
+  have hb := tasks_bounds o fresh m blobs 0
+  have hpw := pairwise_cases (tasks_pairwise o fresh m blobs 0)
+  refine foldl_perm_comm runTask (fun z => z.length = blobs.flatten.length) hp.symm ?_ ?_ F hF
+  · intro z x hx hz
+    show (runTask z x).length = _
+    rw [runTask_length (by have := (hb x hx).2; omega), hz]
+  · intro x hx y hy z hz
+    rcases hpw x hx y hy with h | h | h
+    · rw [h]
+    · exact runTask_comm z x y h (by have := (hb y hy).2; omega)
+    · exact (runTask_comm z y x h (by have := (hb x hx).2; omega)).symm
+
+theorem runTasks_any_order (o : Opts) (fresh : Bool) (m : Option Bytes) (blobs : List Bytes) (old : Option Bytes)
+    (ts : List Task) (hp : ts.Perm (tasks o fresh m 0 blobs)) :
+    runTasks old fresh blobs.flatten.length ts = runTasks old fresh blobs.flatten.length (tasks o fresh m 0 blobs) := by
+  have h := tasks_any_order o fresh m blobs (allocate (old.getD []) fresh blobs.flatten.length) (allocate_length _ _ _) ts hp
+  cases hts : ts with
+  | nil =>
+    rw [hts] at hp
+    rw [List.nil_perm.1 hp]
+  | cons t rest =>
+    cases htt : tasks o fresh m 0 blobs with
+    | nil => rw [hts, htt] at hp; exact absurd hp.symm (List.not_perm_nil_cons _ _)
+    | cons t' rest' =>
+      simp only [runTasks]
+      rw [← hts, ← htt, h]
+
 end Rustic.Restore
